@@ -536,6 +536,10 @@ impl<'a> St<'a> {
             };
             if live {
                 self.viol("id-unique", func, "new-handle", "id-of-live-handle-reissued", format!("{func} returned handle {id}, which is still live as {k:?}"));
+            } else {
+                // the caller may still hold the old handle of this value: from here on a call with that stale handle reaches the
+                // new object instead of being reported as an error (after C19-r8m3)
+                self.viol("invalid-handle-accepted", func, "new-handle", "value-of-closed-handle-reissued", format!("{func} returned handle {id}, the value of a {k:?} handle that was closed earlier in this history: the stale handle now denotes the new object"));
             }
         }
         self.issued.insert(id, (kind, index));
@@ -2032,7 +2036,7 @@ fn run_history(c: &mut Case, idx: u64, plan: &[PlanOp], exact: bool, miri: bool,
 
 // ------------------------------------------------------------------ scripted probes ----
 
-const NPROBE: u64 = 18;
+const NPROBE: u64 = 19;
 
 fn probe_plan(k: u64) -> (&'static str, Vec<PlanOp>) {
     let z = [0u32; 4];
@@ -2144,6 +2148,35 @@ fn probe_plan(k: u64) -> (&'static str, Vec<PlanOp>) {
             }
             (if k == 15 { "reopen-after-replace-with-older-handle-open" } else { "reopen-after-remove-add-rename-with-older-handle-open" }, v)
         }
+        18 => (
+            // handles are taken, every archive is closed, something new is opened, and only then the stale handles are used
+            // (after C19-r8m3)
+            "stale-handles-after-every-archive-was-closed",
+            vec![
+                open_a,
+                op(F::OpenFileEx, HSel::Live(0), [2, 1, 0, 0]),
+                op(F::FindFirstFile, HSel::Live(0), [1, 1, 0, 0]),
+                op(F::CloseFile, HSel::Live(0), z),
+                op(F::OpenFileEx, HSel::Live(0), [0, 1, 0, 0]),
+                op(F::CloseArchive, HSel::Live(0), z),
+                open_b,
+                op(F::OpenFileEx, HSel::Live(0), [1, 1, 0, 0]),
+                op(F::FindFirstFile, HSel::Live(0), [1, 1, 0, 0]),
+                op(F::OpenFileEx, HSel::Live(0), [0, 1, 0, 0]),
+                op(F::ReadFile, HSel::Orphan(0), [5, 1, 0, 0]),
+                op(F::ReadFile, HSel::Closed(0), [5, 1, 0, 0]),
+                op(F::GetFileSize, HSel::Orphan(0), z),
+                op(F::FindNextFile, HSel::Orphan(0), [0, 1, 0, 0]),
+                op(F::HasFile, HSel::Closed(0), [0, 1, 0, 0]),
+                op(F::CloseFile, HSel::Orphan(0), z),
+                op(F::FindClose, HSel::Orphan(0), z),
+                op(F::CloseArchive, HSel::Closed(0), z),
+                op(F::ReadFile, HSel::Live(0), [5, 1, 0, 0]),
+                op(F::ReadFile, HSel::Live(1), [5, 1, 0, 0]),
+                op(F::FindNextFile, HSel::Live(0), [0, 1, 0, 0]),
+                op(F::EnumAll, HSel::Live(0), z),
+            ],
+        ),
         _ => ("special", vec![]),
     }
 }
